@@ -77,6 +77,8 @@ Clauses(T, j, fr, cv, P) ==
     \cup (IF ~H5!WellFormed(post) THEN {"view_well_formed"} ELSE {})
     \cup (IF SeqToSet(e.visit) # H5!Paths(post) \ {<<>>}
           THEN {"visit_lists_exactly_the_tree"} ELSE {})
+    \* `in`, get and [] (absolute, relative, from a child group) agree with the listing, for listed and unlisted paths
+    \cup (IF e.memb # <<>> THEN {"membership_matches_listing"} ELSE {})
     \cup (IF e.hasraw /\ OV!View(RawFiles(e.raw)) # post
           THEN {"view_eq_documented_reading_of_files"} ELSE {})
     \cup (IF e.drv # "h5" /\ \E f \in DOMAIN fr : f \notin DOMAIN e.disk \/ e.disk[f] # fr[f]
